@@ -229,6 +229,24 @@ def rule_trunc(ctx, F):
         ctx.ob(R, b, "the whole response length is compared with the limit itself", bool(exact),
                "truncate compares %s with %s: the comparison must be `response length > limit` without slack, or responses "
                "one or two octets over the limit go out untruncated with TC clear" % (show(over[1])[:60], show(over[0])[:60]), b.where(tb))
+    # the replacement itself has to fit: the OPT record that is carried over can be as large as the service made it
+    minimal = [bb for bb, t_ in b.calls() if re.search(r"AdditionalBuilder::<.*>::opt(::<.*>)?$", t_["fn"] or "")]
+    if ctx.anchor(R, "minimal OPT fallback in truncate", len(minimal) >= 1, b.where()):
+        bf = BranchFacts(b, F)
+        sized = False
+        for sw in sorted(b.reachable_blocks()):
+            if b.blocks[sw]["t"]["k"] != "switch" or not b.dominates(tb, sw):
+                continue
+            for lab, (tm_, v_) in bf.edge_facts(sw).items():
+                s_ = show(deep_strip(tm_))
+                if "len(" in s_ and ("max_response_size_hint" in s_ or "unwrap_or" in s_) and isinstance(v_, bool):
+                    tgt = b.edge_target(sw, lab)
+                    if any(m in b.reach_from(tgt) for m in minimal):
+                        sized = True
+        ctx.ob(R, b, "the OPT record carried into the truncated response is dropped for a minimal one when it does not fit", sized,
+               "truncate re-pushes the response's whole OPT record and falls back to a minimal one only when the push itself "
+               "fails (64 KiB): with 600 octets of options in the OPT record the `truncated` reply to a client that advertised "
+               "512 octets is 651 octets long", b.where(minimal[0]))
     ctx.ob(R, b, "TC only when the response is longer than the limit", over is not None,
            "set_tc(true) is not dominated by `response length > limit` with the limit taken from the transport "
            "context's max_response_size_hint", b.where(tb))
